@@ -856,7 +856,9 @@ class CE:
             if attr in o.cls.class_assigns:
                 mf = pyfacts.Func.__new__(pyfacts.Func)
                 mf.module, mf.qualname, mf.name, mf.node, mf.cls = o.cls.module, "<class>", "<class>", o.cls.node, None
-                return self.ev(o.cls.class_assigns[attr], {}, mf)
+                # the class body's own names (methods defined before the table, other class-level values) are in scope
+                cenv = dict(o.cls.methods)
+                return self.ev(o.cls.class_assigns[attr], cenv, mf)
             if self.prog.find_method(o.cls, "__init__") is None and "_fields" not in o.attrs:
                 raise Unsupported(f"attribute {attr} of an instance of {o.cls.name} whose fields are not modelled")
             raise CERaise("AttributeError", attr)
@@ -995,7 +997,7 @@ class CE:
             raise Unsupported(f"resource path method {name}")
         if isinstance(fn, tuple) and fn and fn[0] == "pymethod":
             o, name = fn[1], fn[2]
-            allowed = {str: {"split", "replace", "startswith", "endswith", "lstrip", "rstrip", "strip", "join", "format", "count", "index", "find", "lower", "upper", "zfill"},
+            allowed = {str: {"split", "replace", "startswith", "endswith", "lstrip", "rstrip", "strip", "join", "format", "count", "index", "find", "lower", "upper", "zfill", "encode", "isdigit", "isalpha", "partition", "rpartition", "splitlines", "removeprefix", "removesuffix", "translate"},
                        list: {"append", "extend", "copy", "index", "count", "reverse", "pop", "insert", "sort"},
                        dict: {"get", "items", "keys", "values", "copy", "update", "setdefault"},
                        tuple: {"index", "count"}, int: {"bit_count", "bit_length", "to_bytes"}, set: {"add", "union"},
@@ -1111,7 +1113,8 @@ class CE:
             safe = {"range": range, "len": len, "list": list, "tuple": tuple, "int": int, "bool": bool, "str": str, "abs": abs,
                     "min": min, "max": max, "sum": sum, "any": any, "all": all, "enumerate": enumerate, "zip": zip,
                     "reversed": reversed, "sorted": sorted, "dict": dict, "set": set, "map": map, "filter": filter,
-                    "print": lambda *a, **k: None, "next": next, "iter": iter, "format": format, "bin": bin, "divmod": divmod}
+                    "print": lambda *a, **k: None, "next": next, "iter": iter, "format": format, "bin": bin, "divmod": divmod,
+                    "ord": ord, "chr": chr, "round": round, "pow": pow, "frozenset": frozenset, "bytes": bytes, "float": float, "hex": hex, "repr": repr}
             if name == "isinstance":
                 return self.isinstance(args[0], e.args[1], f)
             if name == "getattr" and len(args) in (2, 3) and isinstance(args[1], str):
@@ -1154,6 +1157,14 @@ class CE:
             return list(itertools.combinations(list(self.iterate(args[0])), args[1]))
         if dotted.startswith("numpy."):
             return self.call_numpy(name, args, kwargs, e, f)
+        if dotted.startswith("math.") and name in ("isqrt", "sqrt", "floor", "ceil", "comb", "factorial", "log2", "gcd", "prod"):
+            import math
+            if not all(isinstance(a, (int, float)) and not isinstance(a, bool) or isinstance(a, (list, tuple)) for a in args):
+                raise Unsupported(f"{dotted} on non-numeric arguments")
+            try:
+                return getattr(math, name)(*args, **kwargs)
+            except (ValueError, TypeError, OverflowError) as ex:
+                raise CERaise(type(ex).__name__, str(ex))
         if dotted == "logging.getLogger":
             return ("logger",)
         if dotted in ("re.compile", "re.match", "re.fullmatch", "re.search", "re.findall", "re.finditer", "re.split", "re.sub", "re.escape"):
